@@ -40,41 +40,48 @@ Definition C17_drop_statement : Prop :=
 Definition C17_full_statement : Prop :=
   C17_create_statement (fun _ _ => true) /\ C17_index_statement index_wide /\ C17_drop_statement.
 
-(* ---- refuted: the faithful model reproduces two defects of the code ---- *)
 Definition w_table := mk_table "t" None.
 
-(* Vertica's _create_table_sql ignores unlogged() (if_not_exists() is rendered since d178bc5) *)
-Theorem C17_create_refuted_vertica_unlogged : ~ C17_create_statement (fun _ _ => true).
-Proof.
-  intros H.
-  specialize (H CVertica w_table [KUnlogged; KColumns [CATuple "a" "INT"]] (state_of w_table [KUnlogged; KColumns [CATuple "a" "INT"]])
-                eq_refl eq_refl eq_refl).
-  vm_compute in H. discriminate.
-Qed.
-Print Assumptions C17_create_refuted_vertica_unlogged.
+(* ---- the CREATE TABLE and DROP parts hold in full ----
+   (since 1e06637 the Vertica builder rejects unlogged() instead of dropping it, since d178bc5 it prints
+   IF NOT EXISTS: no class/flag combination is left out) *)
+Theorem C17_create_holds : C17_create_statement (fun _ _ => true).
+Proof. intros cls t calls st H Hs _. exact (create_roundtrip_all cls t calls st H Hs). Qed.
+Print Assumptions C17_create_holds.
 
-(* CreateIndexBuilder prints str names bare: a name with a space is not the name read back *)
+Theorem C17_drop_holds : C17_drop_statement.
+Proof. exact drop_roundtrip. Qed.
+Print Assumptions C17_drop_holds.
+
+(* an accepted program never contains a flag call its class cannot print *)
+Theorem C17_accepted_flags_printable : forall cls t calls st, build cls t calls = Ok st -> create_frag cls calls = true.
+Proof. exact accepted_create_frag. Qed.
+Print Assumptions C17_accepted_flags_printable.
+
+(* ---- refuted: the faithful model reproduces the one remaining defect of the code ----
+   CreateIndexBuilder prints the column names bare (c.name): a name with a space is not read back
+   (str index and table names are quoted since f8ac2a6) *)
 Theorem C17_index_refuted_unquoted : ~ C17_index_statement index_wide.
 Proof.
   intros H.
-  destruct (H (INStr "my idx") [XOn (ITStr "t"); XColumns [CAStr "a"]] eq_refl) as (s & H1 & H2).
+  destruct (H (INStr "my idx") [XOn (ITStr "my table"); XColumns [CAStr "my col"]] eq_refl) as (s & H1 & H2).
   vm_compute in H1. inversion H1. subst s. vm_compute in H2. discriminate.
 Qed.
 Print Assumptions C17_index_refuted_unquoted.
 
 Theorem C17_refuted : ~ C17_full_statement.
-Proof. intros [H _]. exact (C17_create_refuted_vertica_unlogged H). Qed.
+Proof. intros [_ [H _]]. exact (C17_index_refuted_unquoted H). Qed.
 Print Assumptions C17_refuted.
 
 (* ---- proved on the exactly described fragment ----
-   create_frag: every class; on VerticaCreateQueryBuilder programs without unlogged();
-   index_frag : names given as str (and the column names, always printed bare) are bare identifiers;
-                names given as Index/Table objects and the criterion text are unrestricted (quote-free);
-   DROP       : the whole statement. *)
+   CREATE TABLE: the whole statement (all classes, all flags);
+   index_frag  : the column names (always printed bare) are bare identifiers; index and table names,
+                 given as str or as objects, are merely quote-free; the criterion text is unrestricted;
+   DROP        : the whole statement. *)
 Theorem C17_on_fragment :
-  C17_create_statement create_frag /\ C17_index_statement index_frag /\ C17_drop_statement.
+  C17_create_statement (fun _ _ => true) /\ C17_index_statement index_frag /\ C17_drop_statement.
 Proof.
-  split; [exact create_roundtrip|]. split; [exact index_roundtrip | exact drop_roundtrip].
+  split; [exact C17_create_holds|]. split; [exact index_roundtrip | exact drop_roundtrip].
 Qed.
 Print Assumptions C17_on_fragment.
 
@@ -114,7 +121,8 @@ Proof. exact create_guards. Qed.
 Print Assumptions C17_guards.
 
 (* programs without once-only conflicts are accepted, in every order (so the theorems are not vacuous) *)
-Theorem C17_simple_programs_accepted : forall cls t calls, simple_program calls = true -> exists st, build cls t calls = Ok st.
+Theorem C17_simple_programs_accepted : forall cls t calls, simple_program calls = true -> create_frag cls calls = true ->
+  exists st, build cls t calls = Ok st.
 Proof. exact simple_program_accepted. Qed.
 Print Assumptions C17_simple_programs_accepted.
 
@@ -135,6 +143,7 @@ Theorem C17_tables_as_documented :
   /\ (forall k, drop_kind_text k = match k with KDatabase => "DATABASE" | KTable => "TABLE" | KUser => "USER" | KView => "VIEW"
                                          | KIndex => "INDEX" | KDictionary => "DICTIONARY" | KQuota => "QUOTA" end)
   /\ (forall c, has_vertica_flags c = match c with CVertica => true | _ => false end)
+  /\ (forall c, rejects_unlogged c = match c with CVertica => true | _ => false end)
   /\ (forall c, has_clickhouse_drops c = match c with DClickHouse => true | _ => false end).
 Proof. repeat split; intros []; reflexivity. Qed.
 Print Assumptions C17_tables_as_documented.
@@ -170,6 +179,8 @@ Example C17_example_text :
      = "CREATE LOCAL TEMPORARY TABLE IF NOT EXISTS ""t"" (""a"") ON COMMIT PRESERVE ROWS"
   /\ create_text CGeneric w_table [KColumns [CAStr "a"]; KPrimaryKey ["a"]; KPrimaryKey ["b"]] = "!AttributeError"
   /\ create_text CGeneric w_table [KColumns [CAStr "a"]; KPrimaryKey []; KPrimaryKey ["a"]] = "!AttributeError"
+  /\ create_text CVertica w_table [KUnlogged; KColumns [CAStr "a"]] = "!AttributeError"
+  /\ create_text CMySQL w_table [KUnlogged; KColumns [CAStr "a"]] = "CREATE UNLOGGED TABLE `t` (`a`)"
   /\ create_text CGeneric w_table [KIfNotExists] = "".
 Proof. vm_compute. repeat split. Qed.
 Print Assumptions C17_example_text.
@@ -184,10 +195,10 @@ Print Assumptions C17_example_vertica.
 
 Example C17_example_index :
   let calls := [XWhere """a"">1"; XUnique; XColumns [CAStr "a"; CATuple "b" "INT"]; XOn (ITObj (mk_table "my  t" (Some "s"))); XIfNotExists; XWhere """c"" IS NULL"] in
-  index_frag (ibuild (INStr "idx") calls) = true
-  /\ render_index (ibuild (INStr "idx") calls)
-     = Ok "CREATE UNIQUE INDEX IF NOT EXISTS idx ON ""s"".""my  t""(a, b) WHERE ""a"">1 AND ""c"" IS NULL"
-  /\ option_map x_cols (parse_index "CREATE UNIQUE INDEX IF NOT EXISTS idx ON ""s"".""my  t""(a, b) WHERE ""a"">1 AND ""c"" IS NULL")
+  index_frag (ibuild (INStr "my idx") calls) = true
+  /\ render_index (ibuild (INStr "my idx") calls)
+     = Ok "CREATE UNIQUE INDEX IF NOT EXISTS ""my idx"" ON ""s"".""my  t""(a, b) WHERE ""a"">1 AND ""c"" IS NULL"
+  /\ option_map x_cols (parse_index "CREATE UNIQUE INDEX IF NOT EXISTS ""my idx"" ON ""s"".""my  t""(a, b) WHERE ""a"">1 AND ""c"" IS NULL")
      = Some ["a"; "b"].
 Proof. vm_compute. repeat split. Qed.
 Print Assumptions C17_example_index.
